@@ -14,6 +14,7 @@ CONSTANTS
   Tags = {"t"}
   LoadLocks = TRUE
   SaveLocks = FALSE
+  TruncFirst = FALSE
   Reread = TRUE
 INVARIANTS
   NoTornRead
